@@ -106,15 +106,30 @@ def one_store(rng, workdir: Path, rec, k):
         t = trajgen.make_base_traj(nprng, npts, k * 100 + j + 1,
                                    flight_id=None, name=rng.random() < 0.7)
         plan = plan0
-        if across == 'subset-later' and j > 0:
-            plan = {f: sorted(rng.sample(v, rng.randint(1, len(v)))) for f, v in plan0.items()}
+        if j > 0:
+            # the first trajectory fixed the file's species dimension (see ASSUMPTIONS):
+            # later trajectories only use species the first one carried in SOME field
+            plan = {}
+            for f, v in plan0.items():
+                ok = [sp for sp in v if sp in union0] or sorted(union0) or list(v)
+                if across == 'subset-later':
+                    ok = sorted(rng.sample(ok, rng.randint(1, len(ok))))
+                plan[f] = ok
         for n in extras:
             t.add_fields(vf.ALL[n])
-            # the first trajectory fixes the file's species dimension (see ASSUMPTIONS)
-            vf.fill(t, n, rng, plan=plan, keep_species_fields=(j == 0))
+            # optional species fields may be unset in the first trajectory too; only if it
+            # would carry no species at all do we keep them (a file needs a species list)
+            vf.fill(t, n, rng, plan=plan, keep_species_fields=(j == 0 and keep_first))
+        if j == 0:
+            union0.update(t.species)
         return t
 
+    union0: set = set()
+    keep_first = rng.random() < 0.4
+
     trajs = [build(j) for j in range(ntraj)]
+    if not keep_first:
+        rec.cls('first-trajectory:optional-species-fields-may-be-unset')
     snaps = [trajgen.snapshot(t) for t in trajs]
     small_cache = rng.random() < 0.5
     cache_mb = max(t.nbytes for t in trajs) * 1.5 / (1024 * 1024) if small_cache else 64
